@@ -5,7 +5,10 @@
 #include <pika/synchronization/event.hpp>
 #include <pika/execution_base/this_thread.hpp>
 #include <pika/thread.hpp>
+#include <pika/threading_base/set_thread_state.hpp>
+#include <pika/threading_base/thread_helpers.hpp>
 #include <memory>
+#include <thread>
 
 enum Phase { P_WORK, P_YIELD, P_BOOST_YIELD, P_SUSPEND, NPHASE };
 static const int NT = 4;    // root + up to 3 children
@@ -148,6 +151,60 @@ static void recycled_prog()
     pmc_outcome("victims=%d completed=%d", victims, completed);
 }
 
+// one task suspends itself (state suspended) a few times; two other tasks both try to resume it whenever
+// they see it suspended (as a notification racing with an interruption / abort would): whatever the order
+// of the two resume attempts and the worker that picks the task up, it runs on one worker at a time and
+// each of its phases exactly once
+static void two_resumers_prog()
+{
+    static Ledger L;
+    L = Ledger{};
+    g = &L;
+    int rounds = 1 + pmc_choose(2, 0);
+    pmc_on_stuck(on_stuck);
+    rt::config c;
+    c.workers = 2;
+    rt::start(c);
+    static pika::threads::detail::thread_id_type target;
+    static int target_known, phases, done;
+    target = pika::threads::detail::invalid_thread_id;
+    target_known = phases = done = 0;
+    rt::spawn([&, rounds] {
+        rt::watch_self("target");
+        Enter e(0);
+        target = pika::threads::detail::get_self_id();
+        target_known = 1;
+        for (int r = 0; r < rounds; ++r)
+        {
+            e.pause();
+            pika::this_thread::suspend(pika::threads::detail::thread_schedule_state::suspended, "C01 two resumers");
+            e.resume();
+            ++phases;
+        }
+        done = 1;
+    });
+    // the two resumers are plain OS threads (as an external notifier and an external interrupter would be)
+    std::thread res[2];
+    for (int k = 0; k < 2; ++k)
+        res[k] = std::thread([&] {
+            while (!done)    // no iteration limit: the stuck detector ends executions in which nothing can move
+            {
+                if (target_known && pika::threads::detail::get_thread_id_data(target)->get_state().state() == pika::threads::detail::thread_schedule_state::suspended)
+                {
+                    pika::threads::detail::set_thread_state(target, pika::threads::detail::thread_schedule_state::pending, pika::threads::detail::thread_restart_state::signaled);
+                    pmc_progress();
+                }
+                sched_yield();
+            }
+        });
+    for (auto& t : res) t.join();
+    rt::stop();
+    PMC_ASSERT(done && phases == rounds, "task-dropped", "the suspended task ran %d of %d phases", phases, rounds);
+    PMC_ASSERT(L.entered[0] == 1 && L.left[0] == 1, "task-dropped", "the resumed task: entered %d, left %d", L.entered[0], L.left[0]);
+    target = pika::threads::detail::invalid_thread_id;
+    pmc_outcome("rounds=%d", rounds);
+}
+
 int main(int argc, char** argv)
 {
     static const char* sites = "thread_data::(set_state_tagged|restore_state|set_state)|thread_queue|scheduling_loop|queue_holder|set_thread_state|set_active_state|create_work|create_thread";
@@ -156,6 +213,7 @@ int main(int argc, char** argv)
     static const char* nfocus = "F-addr: state word of every task; F-site (rmw, cas): thread_data state transitions, set_thread_state/set_active_state, scheduling_loop (switch_status, queue hand-off)";
     static const pmc_spec specs[] = {
         // quick tier: narrow focus, every policy at bound 1, default policy at bound 2
+        {"two_resumers", two_resumers_prog, 1, 2, 0.08, 0.05, 1, nfocus, nsites, "rc"},
         {"recycled_after_interrupt", recycled_prog, 1, 2, 0.06, 0.04, 1, nfocus, nsites, "rc"},
         {"lpf_w2_c2", tree_prog<0, 2, 2>, 1, -1, 0.3, 0, 1, nfocus, nsites, "rc"},
         {"lpf_w1_c2", tree_prog<0, 1, 2>, 1, -1, 0.08, 0, 1, nfocus, nsites, "rc"},
